@@ -186,6 +186,34 @@ func genC16(ctx *Ctx) []Case {
 	}
 	ctx.Count("progress_repetitions_per_case_" + string(rune('0'+preps)))
 
+	// ---- command level, in child processes: `wrgl commit` with every block write failing in turn,
+	// progress bars on and off; `wrgl diff NEW.csv OLD.csv -n N` on raw multi-block files vs -n 1
+	type cc struct{ req, nb int }
+	ccs := []cc{{1, 5}, {4, 5}, {8, 12}}
+	if ctx.Thorough() {
+		ccs = append(ccs, cc{2, 3}, cc{3, 8}, cc{6, 20}, cc{16, 40}, cc{10, 11}, cc{18, 25})
+	}
+	for _, x := range ccs {
+		for bars := 0; bars <= 1; bars++ {
+			cases = append(cases, Case{Tag: "cmd-commit", Nontrivial: true, C: xt.N(xt.LI(9), xt.LI(x.req), xt.LI(x.nb), xt.LI(bars))})
+			ctx.Count("cmd_commit_cases")
+		}
+	}
+	type dc struct{ nb, n, a, r, m int }
+	dcs := []dc{{60, 16, 23, 11, 37}, {60, 8, 5, 3, 9}, {40, 4, 2, 2, 2}, {100, 16, 1, 1, 1}}
+	dreps := 6
+	if ctx.Thorough() {
+		dreps = 8
+		for i := 0; i < 12; i++ {
+			dcs = append(dcs, dc{2 + ctx.Pick(100), []int{1, 2, 4, 8, 16, 32}[ctx.Pick(6)], ctx.Pick(40), ctx.Pick(40), ctx.Pick(40)})
+		}
+	}
+	for _, x := range dcs {
+		cases = append(cases, Case{Tag: "cmd-diff", Nontrivial: x.n >= 4 && x.nb >= 2, C: xt.N(xt.LI(10), xt.LI(x.nb), xt.LI(x.n), xt.LI(x.a), xt.LI(x.r), xt.LI(x.m), xt.LI(dreps))})
+		ctx.Count("cmd_diff_cases")
+	}
+	ctx.Count("cmd_diff_repetitions_per_case_" + string(rune('0'+dreps)))
+
 	// ---- exhaustive small scope: workers x blocks x size of the last block
 	maxW, maxB := 4, 4
 	if ctx.Thorough() {
